@@ -470,6 +470,73 @@ def translated_library_spec(ctx):
     ctx.count("Gemini library moves under the stock and the translated spec (2 compilation orders x 2 specs x compiled / run under)", n)
 
 
+FILLED_ZONE_SRC = """
+@move(arch_spec=F)
+def first():
+    z = spec.get_static_trap(zone_id="reg")
+    return filled.vacate(z, [(0, 0), (0, 1)])
+
+@move(arch_spec=F)
+def second():
+    return spec.get_static_trap(zone_id="reg")
+
+@move(arch_spec=F)
+def third(n: int):
+    base = filled.vacate(spec.get_static_trap(zone_id="reg"), [(0, 0)])
+    return filled.vacate(base, [(n, n)])
+"""
+
+
+def filled_zone_spec(ctx):
+    """a spec whose static trap zone is itself a FilledGrid (legal: it is a Grid): kernels that vacate / re-vacate the looked-up zone, compiled
+    one after the other against the SAME spec object and called repeatedly - the spec stays what it was (deep equality, hash, the zone's
+    vacancy set), the later kernel sees the spec's zone, and every call of a compiled kernel gives the value its source denotes"""
+    from bloqade.geometry.dialects.grid import Grid
+    from bloqade.shuttle.arch import ArchSpec, Layout
+    from bloqade.shuttle.dialects.filled.types import FilledGrid
+    root = Grid.from_positions([0.0, 2.0, 4.0], [0.0, 3.0, 6.0])
+    def vac(v):
+        return sorted(tuple(int(i) for i in p) for p in getattr(v, "vacancies", ()))
+    def rootof(v):
+        return v.parent if isinstance(v, FilledGrid) else v
+    F = ArchSpec(layout=Layout({"reg": FilledGrid.vacate(root, [(2, 2)])}, {"reg"}, {"reg"}, {"reg"}))
+    snap, hsh = copy.deepcopy(F), hash(F)
+    rep = {"filled_zone_src": FILLED_ZONE_SRC}
+    def untouched(when):
+        ctx.evaluations += 1
+        z = F.layout.static_traps["reg"]
+        if not (F == snap) or hash(F) != hsh or vac(z) != [(2, 2)] or not (z == snap.layout.static_traps["reg"]):
+            ctx.fail({"kind": "spec-modified", "spec": "filled-zone", "when": when}, dict(rep, when=when),
+                     f"{when}: the spec's FilledGrid zone now has vacancies {vac(z)} (was [(2, 2)]): compiling / running a kernel modified the spec")
+            return False
+        ctx.nt(("filled-zone-spec", when))
+        return True
+    try:
+        ns = kernels.define(FILLED_ZONE_SRC, F=F)
+    except Exception as e:
+        ctx.obligation("kernels over a spec with a FilledGrid zone compile", False, f"{type(e).__name__}: {e}"[:300])
+        return
+    if not untouched("after compiling three kernels against a spec with a FilledGrid zone"):
+        return
+    steps = [("first", (), [(0, 0), (0, 1), (2, 2)]), ("second", (), [(2, 2)]), ("third", (1,), [(0, 0), (1, 1), (2, 2)]), ("third", (2,), [(0, 0), (2, 2)]),
+             ("third", (1,), [(0, 0), (1, 1), (2, 2)]), ("first", (), [(0, 0), (0, 1), (2, 2)]), ("second", (), [(2, 2)])]
+    for i, (k, args, want) in enumerate(steps):
+        ctx.evaluations += 1
+        try:
+            got = ns[k](*args)
+        except Exception as e:
+            ctx.fail({"kind": "kernel-raises", "scenario": "filled-zone-spec", "kernel": k}, dict(rep, step=i), f"step {i}: {k}{args} raises {type(e).__name__}: {str(e)[:150]}")
+            continue
+        if vac(got) != want or not (rootof(got) == root):
+            ctx.fail({"kind": "behaviour-differs", "scenario": "filled-zone-spec", "kernel": k}, dict(rep, step=i),
+                     f"step {i} of the history first, second, third(1), third(2), third(1), first, second: {k}{args} returns vacancies {vac(got)}, the source denotes {want}")
+        else:
+            ctx.nt(("filled-zone-spec-step", i))
+        if not untouched(f"after step {i} ({k}{args})"):
+            return
+    ctx.count("history over a spec whose zone is a FilledGrid: steps", len(steps))
+
+
 def run(ctx):
     specs = two_specs()
     pristine = {k: (copy.deepcopy(v), hash(v)) for k, v in specs.items()}
@@ -485,6 +552,7 @@ def run(ctx):
     specs_untouched(ctx, specs, pristine, "after every kernel was run unspecialised under each spec")
     source_reference(ctx, specs, expect)
     translated_library_spec(ctx)
+    filled_zone_spec(ctx)
     long_lived_interpreter(ctx, specs, expect)
     specs_untouched(ctx, specs, pristine, "after the long-lived interpreter histories")
     ctx.rule = ("histories over 3 kernels sharing 4 generated subroutines (spec lookups of all kinds, loops, a device call) and the library's "
@@ -575,6 +643,17 @@ def store_model(ctx, hists):
 
 
 def replay(data):
+    if "filled_zone_src" in data.get("input", {}):
+        class K:
+            def __init__(s): s.fails, s.evaluations = [], 0
+            def fail(s, sig, rep, what): s.fails.append(what)
+            def nt(s, *a): pass
+            def count(s, *a): pass
+            def obligation(s, n, ok, log=""):
+                if not ok: s.fails.append(n + ": " + log)
+        k = K()
+        filled_zone_spec(k)
+        return bool(k.fails), (k.fails or ["the spec with a FilledGrid zone is untouched and every kernel returns what its source denotes"])[0][:200]
     if data["input"].get("long_lived"):
         class C:
             def __init__(s): s.fails, s.evaluations = [], 0
